@@ -42,6 +42,14 @@ pub fn explore(opts: &Opts) -> Explored {
             }
         }
     }
+    // wide layers (more inputs / outputs than any block size)
+    for (inp, out) in [(65usize, 3usize), (100, 2), (3, 70), (129, 1)] {
+        for act in [Act::None, Act::Sigmoid] {
+            for input in [vec![inp], vec![2, inp], vec![17, inp]] {
+                items.push(Item::Layer { cfg: LayerCfg::Dense { inp, out, act }, input });
+            }
+        }
+    }
     // conv layers: geometry of C06 at small sizes, strides up to 3 (also larger than the filter)
     let batches = vec![vec![], vec![1], vec![2]];
     let convs = conv_configs(if thorough { 5 } else { 4 }, 2, 3, &[1, 2], &[1, 2], &batches);
